@@ -298,7 +298,7 @@ fn ft_src(defs: &[Def], t: &FT) -> String {
 
 fn defs_src(defs: &[Def], derives: &[(bool, bool)]) -> String {
     let mut s = String::new();
-    for (d, (ts, tj)) in defs.iter().zip(derives.iter()) {
+    for (di, (d, (ts, tj))) in defs.iter().zip(derives.iter()).enumerate() {
         let mut ds = Vec::new();
         if *ts {
             ds.push("ToString");
@@ -317,7 +317,21 @@ fn defs_src(defs: &[Def], derives: &[(bool, bool)]) -> String {
         } else if ds.len() == 2 && variety % 3 == 2 {
             s.push_str(&format!("#[derive({})]\n#[derive({})]\n", ds[1], ds[0]));
         } else {
-            s.push_str(&format!("#[derive({})]\n", ds.join(", ")));
+            // one attribute, in the spellings the attribute grammar allows: tight, spaced, trailing comma, one entry per
+            // line, an empty entry between two commas
+            let list = match (di + variety) % 6 {
+                0 => ds.join(", "),
+                1 => format!("{},", ds.join(", ")),
+                2 => ds.join(","),
+                3 => format!(" {} ", ds.join(" , ")),
+                4 => format!("\n    {},\n", ds.join(",\n    ")),
+                _ => ds.join(",, "),
+            };
+            if (di + variety) % 6 == 3 {
+                s.push_str(&format!("#[ derive ({}) ]\n", list));
+            } else {
+                s.push_str(&format!("#[derive({})]\n", list));
+            }
         }
         match d {
             Def::Struct { name, fields } => {
